@@ -158,14 +158,15 @@ func enumCollides(x *sg.Schema) bool {
 	if !x.HasEnum {
 		return false
 	}
-	seen := map[string]bool{}
+	seen := map[string]string{}
 	for _, e := range x.Enum {
 		if s, ok := e.(string); ok {
 			k := identKey(s)
-			if seen[k] {
+			// the same value listed twice is not a collision (the generator declares its constant once)
+			if prev, dup := seen[k]; dup && prev != s {
 				return true
 			}
-			seen[k] = true
+			seen[k] = s
 		}
 	}
 	return false
